@@ -118,6 +118,10 @@ func runConc(c *Ctx) {
 	c.Stats.Rule = "concurrent histories on one index (2-16 goroutines, 20-40 overlapping ids, single-writer+readers and many-writers modes); non-trivial = some id has overlapping insert/remove calls from different goroutines, or a search overlaps a removal; distinct = (mode, goroutines, seed)"
 	rng := NewRng(c.Seed)
 	rounds := c.ArgInt("rounds", c.Pick(24, 300))
+	if c.Args["mode"] == "dupinsert" {
+		concDuplicateInsert(c, rng)
+		return
+	}
 	// ---- read-only: many searches at once on an index nobody writes to. Every answer must meet C01's
 	// post-condition exactly as a sequential search does (live items, true scores, ascending, no id twice,
 	// at most k, non-empty): searches share nothing they may write. Reported for C01 and for C13.
@@ -751,4 +755,88 @@ func (p *parkSpace) Distance(a, b amath.Vector) float32 {
 		<-p.release
 	}
 	return p.inner.Distance(a, b)
+}
+
+// concDuplicateInsert (C02): the existence check and the store of a vertex are one step under the
+// shard's lock. Several callers insert the same fresh id at once into a populated index nobody else
+// writes to: exactly one is told success, the others "already exists"; what Get returns is the
+// winner's vector; the item count is the number of live ids; after removing every id the index is
+// empty and its raw byte counter is back to zero. (Only the winner ever touches the graph: the losers
+// are turned away at the shard lock, so this is not a many-writers history in C13's sense.)
+func concDuplicateInsert(c *Ctx, rng *Rng) {
+	c.Stats.Rule = "rounds of 8 simultaneous inserts of one fresh id (distinct vectors) into a populated index; non-trivial = all callers left the barrier within the same round; distinct = round"
+	roundsN := c.ArgInt("rounds", c.Pick(400, 6000))
+	c.Begin(fmt.Sprintf("concurrent inserts of the same id, %d rounds of 8 callers", roundsN))
+	defer c.End()
+	sp, _ := newSpace(0)
+	g := hnswCfg{m: 6, ef: 24, efC: 24, heur: false, keep: true}
+	g.mMax, g.mMax0 = g.m, 2*g.m
+	h := index.NewHnsw(2, sp, g.options()...)
+	base := 40
+	for id := 1; id <= base; id++ {
+		if err := h.Insert(rid(id), amath.Vector{float32(id), float32(id % 7)}, nil, id%3); err != nil {
+			c.OpLocal("set-up insert %d failed: %v", id, err)
+			return
+		}
+	}
+	const G = 8
+	live := base
+	for round := 0; round < roundsN; round++ {
+		id := rid(1000 + round)
+		var ready, wg sync.WaitGroup
+		start := make(chan struct{})
+		errs := make([]error, G)
+		ready.Add(G)
+		wg.Add(G)
+		for w := 0; w < G; w++ {
+			go func(w int) {
+				defer wg.Done()
+				ready.Done()
+				<-start
+				errs[w] = h.Insert(id, amath.Vector{float32(round), float32(w + 1)}, index.Metadata{"w": fmt.Sprint(w)}, w%3)
+			}(w)
+		}
+		ready.Wait()
+		close(start)
+		wg.Wait()
+		winners, other := []int{}, ""
+		for w, e := range errs {
+			if e == nil {
+				winners = append(winners, w)
+			} else if e != index.ItemAlreadyExistsError {
+				other = e.Error()
+			}
+		}
+		live++
+		c.Nontrivial("simultaneous-duplicate-insert")
+		v, gerr := h.Get(id)
+		bad := ""
+		switch {
+		case other != "":
+			bad = "a caller was told " + other
+		case len(winners) != 1:
+			bad = fmt.Sprintf("%d callers were told success (callers %v)", len(winners), winners)
+		case gerr != nil:
+			bad = "the id is not retrievable: " + gerr.Error()
+		case v[1] != float32(winners[0]+1):
+			bad = fmt.Sprintf("caller %d was told success but Get returns caller %d's vector", winners[0], int(v[1])-1)
+		case int(h.Len()) != live:
+			bad = fmt.Sprintf("Len() = %d with %d live ids", h.Len(), live)
+		}
+		if bad != "" {
+			c.OpLocal("round %d: 8 simultaneous Insert(%s): %s", round, id, bad)
+			c.Violate("C02", "C02/concurrent-duplicate-insert", fmt.Sprintf("8 simultaneous inserts of one fresh id into a populated index (round %d): %s — the existence check and the store are not one step", round, bad), c.History())
+			return
+		}
+	}
+	c.OpLocal("%d rounds: exactly one success each, the winner's vector retrievable, Len = live ids", roundsN)
+	for id := 1; id <= base; id++ {
+		h.Remove(rid(id))
+	}
+	for round := 0; round < roundsN; round++ {
+		h.Remove(rid(1000 + round))
+	}
+	if h.Len() != 0 {
+		c.Violate("C02", "C02/concurrent-duplicate-insert", fmt.Sprintf("after removing every id Len() = %d", h.Len()), c.History())
+	}
 }
